@@ -1,8 +1,11 @@
 /-
   C13 — handlers: map / and_then only on success, then always, exactly once.
-  (The rejection of a *second* handler is a property of the parser: Props/C14-C15, `MultipleHandlers`.)
+  The last section is about the parser model: one handler may stand anywhere among the branches
+  (`handler_anywhere`), a second one is rejected (`second_handler_rejected`); it builds on the chain round trip of
+  Props/C14.
 -/
 import JoinModel.Props.Common
+import JoinModel.Props.C14
 namespace JoinModel.Props.C13
 open JoinModel JoinModel.Props
 
@@ -88,5 +91,292 @@ theorem handler_kind_rejected (p : Input) (kind : Kind) :
           · split at h <;> cases h
         · intro h
           exact absurd (by simpa using h) h2
+
+/-! ### The parser half: one handler, anywhere among the branches; a second handler is rejected
+
+  Items are written one after the other, separated by `,`: branches (as in Props/C14 §7) and handler definitions
+  `map|and_then|then => body`.  `printed` is what syn prints for the handler's expression. -/
+
+section ParserHalf
+open JoinModel.Props.C14
+
+inductive SrcItem
+  | branch (b : SrcBranch)
+  | handler (k : HKind) (body : Toks) (printed : Toks)
+
+def kwName : HKind → String
+  | .map => "map"
+  | .andThen => "and_then"
+  | .then_ => "then"
+
+def handlerHead (k : HKind) : Toks := [.ident (kwName k), .punct '=' true, .punct '>' false]
+
+def renderItem (it : SrcItem) (tail : Toks) : Toks :=
+  match it with
+  | .branch b => b.x0 ++ renderActs tail b.acts
+  | .handler k body _ => handlerHead k ++ body ++ tail
+
+/-- items separated by `,` -/
+def renderItems : List SrcItem → Toks
+  | [] => []
+  | it :: rest => renderItem it (match rest with | [] => [] | _ :: _ => TT.punct ',' false :: renderItems rest)
+
+/-- what follows an item: nothing, or the separating comma and the remaining items -/
+def sepTail (rest : List SrcItem) : Toks :=
+  match rest with
+  | [] => []
+  | _ :: _ => TT.punct ',' false :: renderItems rest
+
+theorem renderItems_cons (it : SrcItem) (rest : List SrcItem) : renderItems (it :: rest) = renderItem it (sepTail rest) := by
+  cases rest <;> rfl
+
+/-- a branch is well-formed in front of what follows it and does not start like a handler (Props/C14 `BranchesOK`);
+    syn reads a handler's expression up to the separating comma -/
+def ItemOK1 (o : Oracle) (it : SrcItem) (tail whole : Toks) : Prop :=
+  match it with
+  | .branch b => OperandOK o b.x0 (renderActs tail b.acts) ∧ o.letSplit b.x0 = .notLet ∧ ActsOK o tail b.acts ∧
+      BalanceOK 0 b.acts ∧ handlerKw whole = none ∧ b.acts.length ≤ whole.length ∧ whole ≠ []
+  | .handler _ body e => o.exprPrefix (body ++ tail) = some (body.length, e)
+
+def ItemsOK (o : Oracle) : List SrcItem → Prop
+  | [] => True
+  | it :: rest => ItemOK1 o it (sepTail rest) (renderItems (it :: rest)) ∧ ItemsOK o rest
+
+/-- the handler slot while the items are read: `none` = a second handler was met -/
+def handlerFold : Option (HKind × Toks) → List SrcItem → Option (Option (HKind × Toks))
+  | h, [] => some h
+  | h, .branch _ :: its => handlerFold h its
+  | none, .handler k _ e :: its => handlerFold (some (k, e)) its
+  | some _, .handler _ _ _ :: _ => none
+
+def branchesOf (o : Oracle) : List SrcItem → List Branch
+  | [] => []
+  | .branch b :: its => expBranch o b :: branchesOf o its
+  | .handler _ _ _ :: its => branchesOf o its
+
+theorem handlerKw_head (k : HKind) (rest : Toks) : handlerKw (handlerHead k ++ rest) = some k := by
+  cases k <;> simp [handlerKw, handlerHead, kwName, checkSeq, peekPat, peekPunct, skip1]
+
+theorem afterTerm_sepTail (rest : List SrcItem) : afterTerm (sepTail rest) = renderItems rest := by
+  cases rest <;> simp [afterTerm, sepTail, eatComma, renderItems]
+
+/-- **The item loop.**  Branches and handler definitions in any arrangement: the loop returns the branches in the order
+    written and the handler, or the `MultipleHandlers` error as soon as a second handler definition is met. -/
+theorem items_roundtrip_partial (o : Oracle) (items : List SrcItem) :
+    ∀ (acc : List Branch) (h : Option (HKind × Toks)) (fuel : Nat), ItemsOK o items → items.length + 1 ≤ fuel →
+      parseItems o fuel (renderItems items) acc h =
+        (match handlerFold h items with
+          | none => .error .multipleHandlers
+          | some h' => .ok (acc ++ branchesOf o items, h')) := by
+  induction items with
+  | nil =>
+    intro acc h fuel _ hf
+    obtain ⟨fuel, rfl⟩ : ∃ f, fuel = f + 1 := ⟨fuel - 1, by simp at hf; omega⟩
+    simp [renderItems, parseItems, handlerFold, branchesOf]
+  | cons it rest ih =>
+    intro acc h fuel hok hf
+    obtain ⟨fuel, rfl⟩ : ∃ f, fuel = f + 1 := ⟨fuel - 1, by simp at hf; omega⟩
+    obtain ⟨h1, hrest⟩ := hok
+    rw [renderItems_cons] at h1 ⊢
+    cases it with
+    | branch b =>
+      obtain ⟨b1, b2, b3, b4, b5, b6, b7⟩ := h1
+      simp only [renderItem] at b5 b6 b7 ⊢
+      have hb := branch_roundtrip_partial o (sepTail rest) b.x0 b.acts b1 b2 b3 b4
+        ((b.x0 ++ renderActs (sepTail rest) b.acts).length + 2) (by omega)
+      obtain ⟨t, ts, hts⟩ : ∃ t ts, b.x0 ++ renderActs (sepTail rest) b.acts = t :: ts := by
+        cases hr : b.x0 ++ renderActs (sepTail rest) b.acts with
+        | nil => exact absurd hr b7
+        | cons t ts => exact ⟨t, ts, rfl⟩
+      have hpi : parseItems o (fuel + 1) (b.x0 ++ renderActs (sepTail rest) b.acts) acc h =
+          parseItems o fuel (renderItems rest) (acc ++ [expBranch o b]) h := by
+        rw [hts]
+        simp only [parseItems]
+        rw [← hts, b5]
+        simp only [Option.isSome_none, Bool.false_eq_true, if_false]
+        rw [hb, afterTerm_sepTail]
+        rfl
+      rw [hpi, ih (acc ++ [expBranch o b]) h fuel hrest (by simp at hf ⊢; omega)]
+      simp only [handlerFold, branchesOf]
+      cases handlerFold h rest <;> simp [List.append_assoc]
+    | handler k body e =>
+      simp only [renderItem] at h1 ⊢
+      have hkw := handlerKw_head k (body ++ sepTail rest)
+      have hin : handlerHead k ++ body ++ sepTail rest = handlerHead k ++ (body ++ sepTail rest) := by
+        simp [List.append_assoc]
+      rw [hin]
+      have hcons : handlerHead k ++ (body ++ sepTail rest) =
+          TT.ident (kwName k) :: TT.punct '=' true :: TT.punct '>' false :: (body ++ sepTail rest) := rfl
+      cases h with
+      | some h0 =>
+        rw [hcons]
+        simp only [parseItems]
+        rw [← hcons, hkw]
+        simp [handlerFold]
+      | none =>
+        have hph : parseHandlerItem o (handlerHead k ++ (body ++ sepTail rest)) = .ok ((k, e), renderItems rest) := by
+          unfold parseHandlerItem
+          rw [hkw]
+          simp only
+          have hd : (handlerHead k ++ (body ++ sepTail rest)).drop 3 = body ++ sepTail rest := rfl
+          rw [hd, h1]
+          simp only [List.drop_left]
+          have := afterTerm_sepTail rest
+          simp only [afterTerm] at this
+          rw [this]
+        rw [hcons]
+        simp only [parseItems]
+        rw [← hcons, hkw, hph]
+        simp only [Option.isSome_some, if_true, Option.isSome_none, Bool.false_eq_true, if_false]
+        rw [ih acc (some (k, e)) fuel hrest (by simp at hf ⊢; omega)]
+        simp only [handlerFold, branchesOf]
+
+theorem renderActs_len (term : Toks) (acts : List SrcAct) : term.length ≤ (renderActs term acts).length := by
+  induction acts with
+  | nil => simp [renderActs]
+  | cons a as ih => simp only [renderActs, List.length_append]; omega
+
+theorem items_len (o : Oracle) : ∀ items : List SrcItem, ItemsOK o items → items.length ≤ (renderItems items).length := by
+  intro items
+  induction items with
+  | nil => intro _; simp
+  | cons it rest ih =>
+    intro hok
+    obtain ⟨h1, hrest⟩ := hok
+    have := ih hrest
+    have htail : (sepTail rest).length = (match rest with | [] => 0 | _ :: _ => (renderItems rest).length + 1) := by
+      cases rest <;> simp [sepTail]
+    rw [renderItems_cons] at h1 ⊢
+    cases it with
+    | branch b =>
+      obtain ⟨_, _, _, _, _, _, b7⟩ := h1
+      simp only [renderItem] at b7 ⊢
+      have hl := renderActs_len (sepTail rest) b.acts
+      have hpos : 0 < (b.x0 ++ renderActs (sepTail rest) b.acts).length := List.length_pos_iff.mpr b7
+      simp only [List.length_append, List.length_cons] at hl hpos ⊢
+      cases rest with
+      | nil => simp at this ⊢; omega
+      | cons r rs => simp only [List.length_cons] at htail this ⊢; omega
+    | handler k body e =>
+      simp only [renderItem, handlerHead, List.length_append, List.length_cons, List.length_nil]
+      cases rest with
+      | nil => simp only [List.length_nil]; omega
+      | cons r rs => simp only [List.length_cons] at htail this ⊢; omega
+
+/-- **The whole macro input**: any subset of the options in any order, then branches and handler definitions in any
+    arrangement.  The result is determined by the written options (each its own field), the branches in the order
+    written, and the one handler — or it is the `MultipleHandlers` / "at least 1 branch" / "unexpected token" error. -/
+theorem whole_input_roundtrip_partial (o : Oracle) (its : List OptItem) (items : List SrcItem)
+    (hits : ∀ it ∈ its, ItemOK o it) (hnd : (its.map (·.kw)).Nodup) (hok : ItemsOK o items)
+    (hopt : optionKw (renderItems items) = none) :
+    parseMacroInput o (renderOpts its ++ renderItems items) =
+      (match handlerFold none items with
+        | none => .error .multipleHandlers
+        | some h =>
+          if (branchesOf o items).isEmpty then .error .noBranch
+          else if (its.foldl (applyItem o) {}).unexpected then .error (.syn "unexpected token")
+          else .ok { fcp := (its.foldl (applyItem o) {}).fcp, joiner := (its.foldl (applyItem o) {}).joiner,
+                     transpose := (its.foldl (applyItem o) {}).transpose, lazy := (its.foldl (applyItem o) {}).lazy,
+                     handler := h, branches := branchesOf o items }) := by
+  have hrounds : Tables.optionRounds = none := rfl
+  have hl : its.length < (renderOpts its ++ renderItems items).length + 1 := by
+    simp only [List.length_append, renderOpts_length]; omega
+  have hpo : parseOptions o ((renderOpts its ++ renderItems items).length + 1) ((renderOpts its ++ renderItems items).length + 1)
+      (renderOpts its ++ renderItems items) {} = .ok (its.foldl (applyItem o) {}, renderItems items) := by
+    rw [parseOptions_seq o _ hopt _ _ its {} hits hl hl,
+      seqSpec_ok o its {} hits hnd (fun it hit => by
+        rcases mem_optionOrder _ (hits it hit).1 with h | h | h | h <;> simp [isSet, h])]
+  unfold parseMacroInput
+  simp only [hrounds]
+  rw [hpo]
+  simp only
+  rw [items_roundtrip_partial o items [] none _ hok (by have := items_len o items hok; omega)]
+  cases handlerFold none items with
+  | none => rfl
+  | some h => simp
+
+/-- **One handler, anywhere.**  With exactly one handler definition among the items — first, last or between two
+    branches — the parser returns the branches in the order written and that handler: its position changes nothing. -/
+theorem handler_anywhere (o : Oracle) (pre post : List SrcItem) (k : HKind) (body e : Toks)
+    (hpre : ∀ it ∈ pre, ∃ b, it = .branch b) (hpost : ∀ it ∈ post, ∃ b, it = .branch b)
+    (hok : ItemsOK o (pre ++ .handler k body e :: post)) (fuel : Nat) (hf : (pre ++ .handler k body e :: post).length + 1 ≤ fuel) :
+    parseItems o fuel (renderItems (pre ++ .handler k body e :: post)) [] none =
+      .ok (branchesOf o pre ++ branchesOf o post, some (k, e)) := by
+  rw [items_roundtrip_partial o _ [] none fuel hok hf]
+  have hbr : ∀ (l : List SrcItem) (h : Option (HKind × Toks)), (∀ it ∈ l, ∃ b, it = .branch b) → handlerFold h l = some h := by
+    intro l
+    induction l with
+    | nil => intro h _; rfl
+    | cons x xs ih =>
+      intro h hl
+      obtain ⟨b, rfl⟩ := hl x List.mem_cons_self
+      simp only [handlerFold]
+      exact ih h (fun y hy => hl y (List.mem_cons_of_mem _ hy))
+  have hfold : ∀ (l : List SrcItem), (∀ it ∈ l, ∃ b, it = .branch b) →
+      handlerFold none (l ++ .handler k body e :: post) = some (some (k, e)) := by
+    intro l
+    induction l with
+    | nil => intro _; simp only [List.nil_append, handlerFold]; exact hbr post _ hpost
+    | cons x xs ih =>
+      intro hl
+      obtain ⟨b, rfl⟩ := hl x List.mem_cons_self
+      simp only [List.cons_append, handlerFold]
+      exact ih (fun y hy => hl y (List.mem_cons_of_mem _ hy))
+  have hbs : ∀ (l : List SrcItem), branchesOf o (l ++ .handler k body e :: post) = branchesOf o l ++ branchesOf o post := by
+    intro l
+    induction l with
+    | nil => simp [branchesOf]
+    | cons x xs ih => cases x <;> simp [branchesOf, ih]
+  rw [hfold pre hpre, hbs]
+  simp
+
+/-- **A second handler is rejected**, wherever the two stand and whatever kinds they are. -/
+theorem second_handler_rejected (o : Oracle) (pre mid post : List SrcItem) (k₁ k₂ : HKind) (b₁ e₁ b₂ e₂ : Toks)
+    (hpre : ∀ it ∈ pre, ∃ b, it = .branch b) (hmid : ∀ it ∈ mid, ∃ b, it = .branch b)
+    (hok : ItemsOK o (pre ++ .handler k₁ b₁ e₁ :: (mid ++ .handler k₂ b₂ e₂ :: post))) (fuel : Nat)
+    (hf : (pre ++ .handler k₁ b₁ e₁ :: (mid ++ .handler k₂ b₂ e₂ :: post)).length + 1 ≤ fuel) :
+    parseItems o fuel (renderItems (pre ++ .handler k₁ b₁ e₁ :: (mid ++ .handler k₂ b₂ e₂ :: post))) [] none =
+      .error .multipleHandlers := by
+  rw [items_roundtrip_partial o _ [] none fuel hok hf]
+  have h2 : ∀ (l : List SrcItem) (h0 : HKind × Toks), (∀ it ∈ l, ∃ b, it = .branch b) →
+      handlerFold (some h0) (l ++ .handler k₂ b₂ e₂ :: post) = none := by
+    intro l
+    induction l with
+    | nil => intro h0 _; rfl
+    | cons x xs ih =>
+      intro h0 hl
+      obtain ⟨b, rfl⟩ := hl x List.mem_cons_self
+      simp only [List.cons_append, handlerFold]
+      exact ih h0 (fun y hy => hl y (List.mem_cons_of_mem _ hy))
+  have h1 : ∀ (l : List SrcItem), (∀ it ∈ l, ∃ b, it = .branch b) →
+      handlerFold none (l ++ .handler k₁ b₁ e₁ :: (mid ++ .handler k₂ b₂ e₂ :: post)) = none := by
+    intro l
+    induction l with
+    | nil => intro _; simp only [List.nil_append, handlerFold]; exact h2 mid _ hmid
+    | cons x xs ih =>
+      intro hl
+      obtain ⟨b, rfl⟩ := hl x List.mem_cons_self
+      simp only [List.cons_append, handlerFold]
+      exact ih (fun y hy => hl y (List.mem_cons_of_mem _ hy))
+  rw [h1 pre hpre]
+
+/-- the model on concrete inputs (an oracle that accepts single tokens as expressions and reads one token as the
+    handler's expression): `a, then => h, b` has two branches and the handler; `then => h, a, map => g` is rejected -/
+example :
+    let o : Oracle := { validExpr := fun ts => ts.length == 1, validType := fun _ => false, isBlock := fun _ => false,
+                        letSplit := fun _ => .notLet, reprintExpr := id, reprintType := id,
+                        exprPrefix := fun ts => match ts with | t :: _ => some (1, [t]) | [] => none,
+                        pathPrefix := fun _ => none, litBool := fun _ => none }
+    let h (k : String) (f : String) : Toks := [.ident k, .punct '=' true, .punct '>' false, .ident f]
+    let c : Toks := [.punct ',' false]
+    ((parseMacroInput o ([.ident "a"] ++ c ++ h "then" "h" ++ c ++ [.ident "b"])).toOption.map
+        (fun p => (p.branches.length, p.handler.map (·.2)))) = some (2, some [.ident "h"]) ∧
+    (match parseMacroInput o (h "then" "h" ++ c ++ [.ident "a"] ++ c ++ h "map" "g") with
+      | .error .multipleHandlers => true
+      | _ => false) = true := by
+  intro o h c
+  exact ⟨rfl, rfl⟩
+
+end ParserHalf
 
 end JoinModel.Props.C13
